@@ -40,6 +40,7 @@ func init() {
 				js = append(js, J("socket", "VX_C05_RawStream", a...))
 			}
 			js = append(js, J("socket", "VX_C05_RawSizeIndependent", 1, 2), J("socket", "VX_C05_RawSizeIndependent", 3, 0))
+			js = append(js, J("socket", "VX_C05_ReusedMessage", 1), J("socket", "VX_C20_Args", 2, -1, 3))
 			// json protocol: group(method, body, meta value, status msg), n, class(0 any byte = recorded finding, 1 text)
 			for g := 0; g <= 3; g++ {
 				js = append(js, J("proto/jsonproto", "VX_C05_JSONRoundTrip", g, 1, 1), J("proto/jsonproto", "VX_C05_JSONRoundTrip", g, 0, 1))
@@ -85,8 +86,11 @@ func init() {
 			// the real session read loop around the raw parser
 			for _, n := range []int{0, 1, 4, 5} {
 				js = append(js, J(".", "VX_C06_SessionBytes", n, n%2))
+				js = append(js, J(".", "VX_C06_PoolAfterOversize", n+1))
 			}
+			js = append(js, J(".", "VX_C06_SessionFieldBytes", 0, 3), J(".", "VX_C06_SessionFieldBytes", 1, 2), J(".", "VX_C06_SessionFieldBytes", 2, 2))
 			if tier == "thorough" {
+				js = append(js, J(".", "VX_C06_SessionFieldBytes", 1, 3), J(".", "VX_C06_SessionFieldBytes", 2, 3))
 				js = append(js, J(".", "VX_C06_SessionBytes", 6, 1), J(".", "VX_C06_SessionBytes", 7, 0), J(".", "VX_C06_SessionBytes", 8, 1))
 			}
 			if tier == "thorough" {
@@ -131,7 +135,7 @@ func init() {
 				J(".", "VX_C20_ContextReuse", 0, 1), J(".", "VX_C20_ContextReuse", 1, 1), J(".", "VX_C20_ContextReuse", 2, 0),
 			}
 			if tier == "thorough" {
-				js = append(js, J("socket", "VX_C20_Message", 2, 1, 0, 2), J("socket", "VX_C20_Message", 2, 2, 3, 2), J("socket", "VX_C20_Args", 2, 1, 2), J("socket", "VX_C20_Args", 1, 2, 3))
+				js = append(js, J("socket", "VX_C20_Message", 2, 1, 0, 2), J("socket", "VX_C20_Message", 2, 2, 3, 2), J("socket", "VX_C20_Args", 2, 1, 2), J("socket", "VX_C20_Args", 1, 2, 3), J("socket", "VX_C20_Args", 2, -1, 3), J("socket", "VX_C05_ReusedMessage", 2))
 			}
 			return js
 		},
@@ -167,6 +171,9 @@ func init() {
 			add(3, 0, 0, 2, 0, 0, 1, 0)
 			add(3, 1, 1, 0, 0, 0, 1, 0)
 			js = append(js, J(".", "VX_C03_TwoFrames", 1, 0), J(".", "VX_C03_TwoFrames", 1, 1))
+			for st := 0; st <= 4; st++ {
+				js = append(js, J(".", "VX_C03_HookPanic", st))
+			}
 			if tier == "thorough" {
 				js = append(js, J(".", "VX_C03_TwoFrames", 2, 0))
 			}
@@ -200,6 +207,7 @@ func init() {
 		add(2, 1, 1, 0, 0, 0, 0)
 		add(3, 1, 0, 1, 0, 0, 0)
 		js = append(js, J(".", "VX_C02_CloseThenLoss", 0), J(".", "VX_C02_CloseThenLoss", 1), J(".", "VX_C02_HandlerCallsBack"))
+		js = append(js, J(".", "VX_C02_FastReply", 0, 1), J(".", "VX_C02_FastReply", 1, 0))
 		for _, cut := range []int{1, 3, 4, 5, 9, 14, 18} {
 			add(1, 1, 0, 2, 0, cut, 0)
 		}
@@ -223,7 +231,8 @@ func init() {
 	registerCheck(&checkSpec{
 		id: "C08", dirs: []string{"."}, level: "other",
 		jobs: func(tier string) []job {
-			js := []job{J(".", "VX_C08_GracefulClose", 0, 1), J(".", "VX_C08_GracefulClose", 1, 1), J(".", "VX_C08_GracefulClose", 2, 1), J(".", "VX_C02_CloseThenLoss", 1), J(".", "VX_C02_CloseThenLoss", 0)}
+			js := []job{J(".", "VX_C08_GracefulClose", 0, 1), J(".", "VX_C08_GracefulClose", 1, 1), J(".", "VX_C08_GracefulClose", 2, 1), J(".", "VX_C02_CloseThenLoss", 1), J(".", "VX_C02_CloseThenLoss", 0),
+				J(".", "VX_C08_CloseTwoPending", 0), J(".", "VX_C08_CloseTwoPending", 1)}
 			if tier == "thorough" {
 				js = append(js, J(".", "VX_C08_GracefulClose", 0, 3), J(".", "VX_C08_GracefulClose", 1, 3), J(".", "VX_C08_GracefulClose", 2, 0))
 			}
@@ -242,6 +251,7 @@ func init() {
 				J(".", "VX_C03_Frame", 1, 0, 0, 0, 0, 0, 2, 1), J(".", "VX_C03_Frame", 3, 0, 0, 0, 0, 0, 2, 0),
 				J("socket", "VX_C20_Message", 1, 1, 3, 1),
 				J(".", "VX_C01_ConcurrentCalls", 1, 1),
+				J(".", "VX_C01_MetaAcrossRequests", 0, 1), J(".", "VX_C01_MetaAcrossRequests", 1, 1), J(".", "VX_C10_RealRoutes", 1),
 			}
 			if tier == "thorough" {
 				js = append(js, J("socket", "VX_C01_BodyStableAcrossFrames", 3, 3, 0, 9), J(".", "VX_C02_Replies", 0, 0, 1, 2, 0, 0, 1), J(".", "VX_C01_ConcurrentCalls", 2, 1))
@@ -313,7 +323,7 @@ func init() {
 		jobs: func(tier string) []job {
 			js := []job{J(".", "VX_C07_History", 1), J(".", "VX_C07_History", 2), J(".", "VX_C07_History", 3), J(".", "VX_C07_History", 4),
 				J(".", "VX_C07_AcceptHooks", 0, 0), J(".", "VX_C07_AcceptHooks", 1, 0), J(".", "VX_C07_AcceptHooks", 0, 1), J(".", "VX_C07_AcceptHooks", 1, 1),
-				J(".", "VX_C07_CloseRace", 1), J(".", "VX_C07_CloseRace", 2)}
+				J(".", "VX_C07_CloseRace", 1), J(".", "VX_C07_CloseRace", 2), J(".", "VX_C07_ModifySocket", 0), J(".", "VX_C07_ModifySocket", 1)}
 			if tier == "thorough" {
 				js = append(js, J(".", "VX_C07_History", 5))
 			}
@@ -339,6 +349,7 @@ func init() {
 			add(2, 0, 1, 1, 1, 0, 0, 1)
 			add(1, 1, 0, 0, 1, 1, 1, 1)
 			js = append(js, J(".", "VX_C09_ClientHooks", 0, 0), J(".", "VX_C09_ClientHooks", 0, 1), J(".", "VX_C09_ClientHooks", 1, 0), J(".", "VX_C09_ClientHooks", 1, 1))
+			js = append(js, J(".", "VX_C09_RedialRetry", 0), J(".", "VX_C09_RedialRetry", 1))
 			// veto statuses through the general frame harness (incl. code 405)
 			for vs := 1; vs <= 3; vs++ {
 				js = append(js, J(".", "VX_C03_Frame", 1, 0, 0, 0, vs, 0, 1, 0))
@@ -373,6 +384,7 @@ func init() {
 			for m := 0; m <= 3; m++ {
 				js = append(js, J(".", "VX_C10_Conflict", m))
 			}
+			js = append(js, J(".", "VX_C10_RealRoutes", 1), J(".", "VX_C10_SubRoutePush", 0), J(".", "VX_C10_SubRoutePush", 1))
 			if tier == "thorough" {
 				js = append(js, J(".", "VX_C10_MapperSymbolic", 4, 1), J(".", "VX_C10_MapperSymbolic", 5, 0), J(".", "VX_C10_MapperSymbolic", 6, 2))
 			}
